@@ -409,6 +409,12 @@ func run(fl flow, r opfix.Router, sv string, in incid, p plan, warm bool) (o obs
 		f, err = opfix.NewWithIssuerStorage(st, opfix.Options{}, op.StaticIssuer(opfix.Issuer), func(op.Storage) op.Storage { return st.AsMinStorage() })
 	case "SKeep": // the failing call has done its work: results and side effects accompany the error
 		f, err = opfix.NewWithIssuerStorage(st, opfix.Options{}, op.StaticIssuer(opfix.Issuer), func(op.Storage) op.Storage { return st.AsKeepStorage() })
+	case "SFull": // SKeep + every field of an out-parameter written, also those the framework sets itself (introspection: active)
+		f, err = opfix.NewWithIssuerStorage(st, opfix.Options{}, op.StaticIssuer(opfix.Issuer), func(op.Storage) op.Storage { return st.AsFullStorage() })
+	case "SNil": // the failing call returns typed nil pointers in its interface-typed results (`var r *Req; return r, err`)
+		f, err = opfix.NewWithIssuerStorage(st, opfix.Options{}, op.StaticIssuer(opfix.Issuer), func(op.Storage) op.Storage { return st.AsShapeStorage(refstore.ShapeNilPtr) })
+	case "SZero": // the failing call returns non-nil, empty objects (`r := &Req{}; err := scan(r); return r, err`)
+		f, err = opfix.NewWithIssuerStorage(st, opfix.Options{}, op.StaticIssuer(opfix.Issuer), func(op.Storage) op.Storage { return st.AsShapeStorage(refstore.ShapeZero) })
 	default:
 		f, err = opfix.New(st, opfix.Options{})
 	}
@@ -452,14 +458,27 @@ type job struct {
 	perr string
 }
 
+// the storage variants: which optional interfaces the provider finds (SStd / SMax / SMin) and WHAT a failing
+// call returns besides the error (SStd: untyped nil / zero values; SNil: typed nil pointers; SZero: non-nil
+// empty objects; SKeep: the complete results, side effects done; SFull: SKeep + every field of an out-parameter
+// written, also the ones the framework sets itself after a successful call)
+var storages = []string{"SStd", "SMax", "SMin", "SKeep", "SNil", "SZero", "SFull"}
+
+// differs: the methods in which a result-shape variant behaves differently from the variant it is derived
+// from (SNil / SZero from SStd: the methods with an interface / pointer / slice / map result; SFull from SKeep: the
+// methods with an out-parameter). Only failures of these methods are planned for it - a failure of any other
+// method is the very same run as on SStd / SKeep. nil = every method.
+var differs = map[string]map[string]bool{"SNil": refstore.ShapedMethods, "SZero": refstore.ShapedMethods, "SFull": refstore.FullMethods}
+
 type group struct {
 	fl     flow
 	r      opfix.Router
-	sv     string // SStd | SMax | SMin
+	sv     string // one of storages
 	in     incid
 	warm   bool
 	base   job
 	faults []*job
+	same   bool // a derived storage variant on a flow without any method in which it differs: not emitted
 }
 
 // parallel runs every job on its own fresh store and provider; results stay in their slots,
@@ -510,7 +529,7 @@ func main() {
 			// incidental request values come from the seed; they do not influence the model
 			in := incid{state: word(1 + rnd.IntN(12)), nonce: word(1 + rnd.IntN(12)),
 				verifier: "v" + strings.Repeat("x", 42+rnd.IntN(20)) + fmt.Sprint(rnd.IntN(1000)), user: drv.Pick(rnd, []string{"alice", "bob"})}
-			for _, sv := range []string{"SStd", "SMax", "SMin", "SKeep"} {
+			for _, sv := range storages {
 				for _, warm := range []bool{false, true} {
 					if warm && sv != "SStd" && cfg.Quick {
 						continue
@@ -556,19 +575,29 @@ func main() {
 			if reduced && !kd.warm {
 				continue
 			}
+			only := differs[g.sv]
 			if kd.quick || (!cfg.Quick && !g.warm && std && firstOf[g]) {
 				for k := 1; k <= len(g.base.o.journal); k++ {
+					if only != nil && !only[g.base.o.journal[k-1]] {
+						continue
+					}
 					g.faults = append(g.faults, &job{p: plan{at: k, kind: kd}, kth: g.base.o.journal[k-1]})
 				}
 			}
 			if kd.method && (!reduced || kd.tag == "plain" && (!g.warm || !cfg.Quick)) {
 				for _, m := range ms {
+					if only != nil && !only[m] {
+						continue
+					}
 					g.faults = append(g.faults, &job{p: plan{method: m, raw: seen[m], kind: kd}, kth: m})
 				}
 			}
 		}
 		if g.warm && std && g.r == opfix.Legacy { // groups of a flow end with (legacy, SMin); SStd warm of legacy marks the flow name as seen
 			firstSeen[g.fl.name] = true
+		}
+		if differs[g.sv] != nil && len(g.faults) == 0 {
+			g.same = true // the flow calls no method in which this variant differs: nothing to run
 		}
 		for _, j := range g.faults {
 			all = append(all, j)
@@ -583,6 +612,9 @@ func main() {
 	var skipped []string
 	runs := 0
 	for _, g := range groups {
+		if g.same {
+			continue
+		}
 		router := "RProvider"
 		if g.r == opfix.Legacy {
 			router = "RLegacy"
@@ -621,7 +653,7 @@ func main() {
 		os.Exit(2)
 	}
 	err := w.Close(emit.Meta{Property: "C10", Tier: cfg.Tier, Seed: cfg.Seed, Exhaustive: true,
-		Rule:  "Exhaustive enumeration, not sampled: every flow variant (authorize with a registered redirect_uri in every response_type {code, id_token, id_token token} x response_mode {none, query, fragment, form_post} and with an unregistered redirect_uri; callback code / id_token / id_token token, each in every response_mode; token grants code, refresh, client_credentials, jwt-bearer, token-exchange, device; userinfo, introspect, revoke access/refresh incl. JWT access tokens, device authorization, end session in all 16 combinations of id_token_hint / client_id / post_logout_redirect_uri / state, keys, discovery, ready) x both routers x {SStd: refstore as it is; SMax: every optional storage interface implemented (CanTerminateSessionFromRequest, CanGetPrivateClaimsFromRequest, TokenExchangeTokensVerifierStorage, JWTProfileTokenStorage in addition); SMin: only the grant storages, no CanSetUserinfoFromRequest; SKeep: interfaces of SStd, but the failing call has done its work - its results and side effects come back together with the error} x {cold: fresh provider instance; warm: the same instance has served the whole flow once, fault free, before} x {no fault; k-th storage call fails for k = 1..calls of the fault-free run; every call of method m fails for each m of that run} x the VALUE of the failure: plain error, context.DeadlineExceeded, context.Canceled, *oidc.Error of EVERY type (all exported constructors of pkg/oidc/error.go: server_error, invalid_request, invalid_client, access_denied, invalid_scope, invalid_grant, unauthorized_client, unsupported_grant_type, interaction_required, login_required, request_not_supported, authorization_pending, slow_down, expired_token, invalid_target; a type of the storage's own; the empty type; redirect-disabled invalid_request), op.ErrDuplicateUserCode, op.ErrInvalidRefreshToken, each bare and wrapped with %w; Storage.RevokeToken, whose signature returns *oidc.Error, returns the chosen *oidc.Error itself (46 values: 27 core values for the k-th-call plans of every flow variant, 5 of them for the method plans, 3 on warm providers; quick tier: the query / fragment response modes and the non-code authorize variants run the 3 warm values + plain method plans (form_post runs all core values), SMax / SMin / SKeep run cold with the 3 warm values + plain method plans; thorough: every variant and storage like SStd, cold and warm, plain-error method plans on warm providers, and the 19 remaining wrapped values on the first variant of each flow). Fresh store and provider per run, fault-free preparation through the fixture, then ResetJournal + fault plan + the request under test, every request under a 10 s time-out. Observed: status class, OAuth error, journal, number of WriteHeader calls / documents (JSON values, HTML pages), credential kinds anywhere in status / headers / Location / body incl. the form controls of a 200 HTML page (form_post). The seed only varies incidental request values (state, nonce, verifier, user). Non-trivial = a fault plan is set (path != 0); distinct = distinct (flow, router, storage, warm, plan).",
+		Rule:  "Exhaustive enumeration, not sampled: every flow variant (authorize with a registered redirect_uri in every response_type {code, id_token, id_token token} x response_mode {none, query, fragment, form_post} and with an unregistered redirect_uri; callback code / id_token / id_token token, each in every response_mode; token grants code, refresh, client_credentials, jwt-bearer, token-exchange, device; userinfo, introspect, revoke access/refresh incl. JWT access tokens, device authorization, end session in all 16 combinations of id_token_hint / client_id / post_logout_redirect_uri / state, keys, discovery, ready) x both routers x {SStd: refstore as it is; SMax: every optional storage interface implemented (CanTerminateSessionFromRequest, CanGetPrivateClaimsFromRequest, TokenExchangeTokensVerifierStorage, JWTProfileTokenStorage in addition); SMin: only the grant storages, no CanSetUserinfoFromRequest; SKeep: interfaces of SStd, but the failing call has done its work - its results and side effects come back together with the error; SNil: interfaces of SStd, every interface-typed result of the failing call is a typed nil pointer of the storage's concrete type (result != nil on the interface, any method call on it dereferences nil); SZero: interfaces of SStd, every interface / pointer / slice / map result of the failing call is a non-nil empty object; SFull: SKeep, and the failing call has written EVERY field of its out-parameter, also those the framework sets itself after a successful call (IntrospectionResponse.Active = true, token_type, exp, iss ...; UserInfo sub / name / email whatever the scopes); SNil / SZero / SFull are run for failures of the methods in which they differ from SStd / SKeep (methods with such a result / with an out-parameter) - any other failure is the same run as on SStd / SKeep} x {cold: fresh provider instance; warm: the same instance has served the whole flow once, fault free, before} x {no fault; k-th storage call fails for k = 1..calls of the fault-free run; every call of method m fails for each m of that run} x the VALUE of the failure: plain error, context.DeadlineExceeded, context.Canceled, *oidc.Error of EVERY type (all exported constructors of pkg/oidc/error.go: server_error, invalid_request, invalid_client, access_denied, invalid_scope, invalid_grant, unauthorized_client, unsupported_grant_type, interaction_required, login_required, request_not_supported, authorization_pending, slow_down, expired_token, invalid_target; a type of the storage's own; the empty type; redirect-disabled invalid_request), op.ErrDuplicateUserCode, op.ErrInvalidRefreshToken, each bare and wrapped with %w; Storage.RevokeToken, whose signature returns *oidc.Error, returns the chosen *oidc.Error itself (46 values: 27 core values for the k-th-call plans of every flow variant, 5 of them for the method plans, 3 on warm providers; quick tier: the query / fragment response modes and the non-code authorize variants run the 3 warm values + plain method plans (form_post runs all core values), SMax / SMin / SKeep / SNil / SZero / SFull run cold with the 3 warm values + plain method plans; thorough: every variant and storage like SStd, cold and warm, plain-error method plans on warm providers, and the 19 remaining wrapped values on the first variant of each flow). Fresh store and provider per run, fault-free preparation through the fixture, then ResetJournal + fault plan + the request under test, every request under a 10 s time-out. Observed: status class, OAuth error, journal, number of WriteHeader calls / documents (JSON values, HTML pages), credential kinds anywhere in status / headers / Location / body incl. the form controls of a 200 HTML page (form_post). The seed only varies incidental request values (state, nonce, verifier, user). Non-trivial = a fault plan is set (path != 0); distinct = distinct (flow, router, storage, warm, plan).",
 		Extra: map[string]any{"runs": runs}})
 	if err != nil {
 		fmt.Fprintln(os.Stderr, err)
